@@ -51,6 +51,21 @@ def specKNN [Bounded O] [DecidableEq O] (s : List O) (k : Nat) (px py : Rat) (re
   sortedBy (odist px py) objs &&
   objs.all fun o => (msub s objs).all fun o' => decide (odist px py o ≤ odist px py o')
 
+/-- `specKNN` with the distance of an object as a parameter `f` (the exact box distance `odist px py` gives
+`specKNN`, definitionally; the float-level theorem `C12_knn_float` instantiates `f` with the ROUNDED squared
+distance that the code compares) -/
+def specKNNBy [DecidableEq O] (f : O → Rat) (s : List O) (k : Nat) (res : List (Option O)) : Bool :=
+  let objs := res.filterMap id
+  decide (res.length = k) &&
+  decide (res = objs.map some ++ List.replicate (k - objs.length) none) &&
+  decide (objs.length = min k s.length) &&
+  decide ((msub s objs).length + objs.length = s.length) &&
+  sortedBy f objs &&
+  objs.all fun o => (msub s objs).all fun o' => decide (f o ≤ f o')
+
+theorem specKNN_eq_by [Bounded O] [DecidableEq O] (s : List O) (k : Nat) (px py : Rat) (res : List (Option O)) :
+    specKNN s k px py res = specKNNBy (odist px py) s k res := rfl
+
 /-! ### the same two predicates up to a relative tolerance `eps` on squared distances
 
 Used by the judge ONLY for the families whose coordinates are not dyadic (class `…specOnly…`): there the
